@@ -140,7 +140,8 @@ type Core struct {
 	tok           tokState
 	lastRefundSig string
 	lastRefusal   map[int64]string
-	atkName       string
+	atkName         string
+	genesisRestarts int
 	rlSig         string
 	govBlock      bool
 }
@@ -167,6 +168,9 @@ type CoreOptions struct {
 	WDelayProbe  int
 	WReReg       int // replay of the v2 counterparty registration
 	WSkew        int // extra weight of per-chain clock skew changes
+	SkewIDs      bool // make the client identifiers of the two chains differ
+	WGenesis     int  // genesis export/import restarts
+	WLostCommit  int // crash between FinalizeBlock and Commit
 	// token worlds
 	Tokens    bool
 	Chains    int      // number of chains (default 2)
@@ -272,6 +276,14 @@ func (p *Core) Setup(w *sim.World) {
 	if p.wantKind("v2a") {
 		p.Routes = append(p.Routes, &Route{Kind: "v2a", V2: true, Chain: [2]*sim.Chain{a, b}, ID: [2]string{chU.ChanID, chU.Peer.ChanID},
 			Client: [2]string{ea.ClientID, eb.ClientID}})
+	}
+	if p.Opt.SkewIDs {
+		// one extra client on chain b, so that client identifiers on the two chains differ
+		signer := b.Accounts[1]
+		r := b.Deliver(sim.DefaultBlockInterval, signer, 0, sim.MsgCreateTMClient(a, a.Height, tm, signer.String()))
+		if !r.OK() {
+			sim.Failf("extra client: %s", r.Log)
+		}
 	}
 	if p.wantKind("v2") {
 		fa, fb := sim.NewClientPair(a, b, tm, tm)
